@@ -25,3 +25,11 @@ package types
 //@ nopanic dryrun
 // verif:func (ClientState).UpgradeState
 //@ nopanic dryrun
+
+// ---- the configured TSS address is the canonical spelling, the one every signer comparison uses (C18: an update from
+// the TSS account succeeds) ----
+// verif:import sdk github.com/cosmos/cosmos-sdk/types
+// verif:func (ClientState).Validate
+//@ ensures [canonical-address] result == nil ==> first(sdk.AccAddressFromBech32(cs.TssAddress)).String() == cs.TssAddress
+// verif:func (Header).ValidateBasic
+//@ ensures [canonical-address] result == nil ==> first(sdk.AccAddressFromBech32(h.TssAddress)).String() == h.TssAddress
